@@ -19,6 +19,8 @@ type c01Case struct {
 	Closer  []string // per RPC: "", "close", "cancel", "hclose" — a party that ends the RPC early
 	Choices []int
 	Skips   int // RPCs in which the receivers start with a receive that cannot decode its message
+	// UnmarshalRace: the case was built so that a close/cancel can land while a receiver is inside Unmarshal
+	UnmarshalRace bool
 }
 
 func sendSteps(t *rapid.T, cfg sim.Config, max int, label string) []sim.Step {
@@ -157,7 +159,22 @@ func genC01(t *rapid.T) c01Case {
 			twoReceivers = true
 		}
 	}
-	if rapid.IntRange(0, 2).Draw(t, "points") == 0 {
+	if rapid.IntRange(0, 5).Draw(t, "closer_during_unmarshal") == 0 && len(c.RPCs) > 0 {
+		// a receiver is held inside Unmarshal (it still borrows the reader's buffer) while another goroutine closes
+		// or cancels the stream and the peer's next message is already on its way
+		c.Cfg.Points = []string{"harness.Unmarshal.holding"}
+		c.Cfg.PointLimit = 8
+		kind := rapid.SampledFrom([]string{"close", "cancel"}).Draw(t, "ucloser")
+		nsend := rapid.IntRange(2, 4).Draw(t, "usends")
+		p := sim.RPC{NoFinalClose: true, Client: sim.Prog{Steps: []sim.Step{{Op: "drain"}}}, CSubs: []sim.Prog{{Steps: []sim.Step{{Op: kind}}}}}
+		for i := 0; i < nsend; i++ {
+			p.Handler.Steps = append(p.Handler.Steps, sim.Step{Op: "send", Size: rapid.SampledFrom([]int{0, 10, 100}).Draw(t, "usize")})
+		}
+		p.Handler.Steps = append(p.Handler.Steps, sim.Step{Op: "ret"})
+		c.RPCs[0], c.Closer[0] = p, kind
+		c.Cfg.RawAPI, c.Cfg.ManualFlush = false, false
+		c.UnmarshalRace = true
+	} else if rapid.IntRange(0, 2).Draw(t, "points") == 0 {
 		c.Cfg.Points = rapid.SliceOfNDistinct(rapid.SampledFrom(append([]string{"harness.Unmarshal.holding", "harness.Unmarshal.holding", "manager.manageReader.beforeDispatch"}, streamPoints...)), 1, 3, func(s string) string { return s }).Draw(t, "pts")
 		c.Cfg.PointLimit = 8
 	}
@@ -196,7 +213,13 @@ func runC01(c c01Case) (r pbt.Result) {
 					parkedUnmarshal = true
 				}
 			}
-			if _, ok := w.Step(take(&choices), sim.Filter{}); !ok {
+			filt := sim.Filter{}
+			if c.UnmarshalRace && k == 0 && (!w.Done(fmt.Sprintf("c0.%d", len(c.RPCs[0].CSubs))) || w.B.Out().CanDeliver() || w.B.Out().CanAccept()) {
+				// the receiver stays inside Unmarshal until the closer has had its turn and what the peer has sent
+				// meanwhile has arrived
+				filt.Hold = func(p string) bool { return p == "harness.Unmarshal.holding" }
+			}
+			if _, ok := w.Step(take(&choices), filt); !ok {
 				break
 			}
 			steps++
@@ -397,6 +420,9 @@ func runC01(c c01Case) (r pbt.Result) {
 	}
 	if c.Cfg.RawAPI {
 		r.Label("raw_stream_interface")
+	}
+	if c.UnmarshalRace {
+		r.Label("closer_may_land_during_unmarshal")
 	}
 	r.NonTrivial = multiFrame || concurrent || parkedUnmarshal
 	r.Key = strings.Join(w.Trace, ",") + fmt.Sprintf("|%+v|%+v", c.Cfg, c.RPCs)
